@@ -387,6 +387,16 @@ impl Progress {
     }
 }
 
+/// remove the database directories this process has left behind
+fn cleanup_dirs() {
+    let prefix = format!("c38-{}-", std::process::id());
+    if let Ok(rd) = std::fs::read_dir(std::env::temp_dir()) {
+        for e in rd.filter_map(|e| e.ok()) {
+            if e.file_name().to_string_lossy().starts_with(&prefix) { let _ = std::fs::remove_dir_all(e.path()); }
+        }
+    }
+}
+
 /// see c37.rs: exit code 17 = ended early after a suspect run (threads left behind), start me again
 fn worker(a: &Args) {
     let task = Task::from_args(&a.rest).expect("worker task");
@@ -429,7 +439,7 @@ fn worker(a: &Args) {
                         }
                     }
                 }
-                if !go_on { flush(&mut out); pr.save(&state_path); std::process::exit(17); }
+                if !go_on { flush(&mut out); pr.save(&state_path); cleanup_dirs(); std::process::exit(17); }
             }
         }
         Task::Random { seed, count } => {
@@ -441,7 +451,7 @@ fn worker(a: &Args) {
                 let (o, suspect) = run_case(&progs, Plan::Random(plan_seed, 2 + (pr.done % 4) as u64));
                 let (accepted, go_on) = settle(&mut pr, &mut out, &progs, &o, suspect, &format!("random{}t", progs.len()));
                 if accepted { pr.rng = rng.0; pr.done += 1; }
-                if !go_on { flush(&mut out); pr.save(&state_path); std::process::exit(17); }
+                if !go_on { flush(&mut out); pr.save(&state_path); cleanup_dirs(); std::process::exit(17); }
             }
         }
         Task::Lines { file, from, to } => {
@@ -453,7 +463,7 @@ fn worker(a: &Args) {
                         let (o, suspect) = run_case(&progs, Plan::Fixed(&sched));
                         let (accepted, go_on) = settle(&mut pr, &mut out, &progs, &o, suspect, "replay");
                         if accepted { pr.done += 1; }
-                        if !go_on { flush(&mut out); pr.save(&state_path); std::process::exit(17); }
+                        if !go_on { flush(&mut out); pr.save(&state_path); cleanup_dirs(); std::process::exit(17); }
                     }
                     None => pr.done += 1,
                 }
@@ -462,6 +472,7 @@ fn worker(a: &Args) {
     }
     flush(&mut out);
     let _ = std::fs::remove_file(&state_path);
+    cleanup_dirs();
 }
 
 struct Row { kind: String, nontrivial: bool, blocked: usize, verdict: String, replay: String, term: String }
